@@ -147,6 +147,13 @@ def _c1314(pid, tier):
     return c1314.check(pid, tier)
 
 
+def _c1516(pid, tier):
+    from . import c1516
+    return c1516.check(pid, tier)
+
+
+REGISTRY["C15"] = _c1516
+REGISTRY["C16"] = _c1516
 REGISTRY["C13"] = _c1314
 REGISTRY["C14"] = _c1314
 
